@@ -1,5 +1,6 @@
 /* Harnesses: one per function under contract (dfcc assumes the requires, checks assigns+ensures). */
 int ghost_k;
+int g_ratio_n; Real g_ratio_res; int g_sc_n; Real g_sc_x[4], g_sc_s[4], g_sc_r[4];
 void h_boundUnilateral(void) { Real s; Real* p; boundUnilateral(s, p); }
 void h_boundScalar(void)     { Real lb, ub; Real* p; boundScalar(lb, p, ub); }
 void h_boundVector(void)     { Real L; struct IdxArray* IV; struct Vec* pi; boundVector(L, IV, pi); }
